@@ -372,6 +372,13 @@ def _pb_iter(E, env, trace, fq, ordn):
              detail='parse_block does not call parse_block directly while it searches its end tag (that would compile every nested '
                     'block once per enclosing level: work exponential in the nesting depth)')
     g = E.ghost_env(env)
+    # C06 / C07 (grammar of continuation tags): whether ``<dtml-else name>`` continues the block or opens the deprecated
+    # stand-alone else is decided against the arguments of the block's START tag, for every tag met while the block is open
+    pts = [t for t in trace if t[0] == 'contract-call' and t[1] == PT]
+    E.oblige('%s::C06.block.tags_are_classified_against_the_start_tags_arguments' % fq,
+             bool(all(t[2].get('sargs') is g.get('sa0') for t in pts)), kind='trace',
+             detail='every _parseTag call made while looking for the end of a block is given the arguments of the block\'s start tag '
+                    '(not those of the continuation tag seen last)')
     hss = E.as_z3_int(g['h_sstart'])
     hl, ht = E.as_z3_int(env.locals['l_']), z3.Length(E.as_z3_str(env.locals['tag']))
     text = E.as_z3_str(env.locals['text'])
@@ -433,7 +440,7 @@ contract(PB, variant='C01',
          uses=[PT, PA, PC, PE, SK, ST + '.SubTemplate'],
          invariants={1: dict(header='1', text_var='text',
                              inv=dict(pos='0 <= sstart and sstart <= start and start <= strlen(text) and start >= s0'),
-                             ghost={'s0': 'start'}, ghost_types={'s0': 'same'},
+                             ghost={'s0': 'start', 'sa0': 'sargs'}, ghost_types={'s0': 'same', 'sa0': 'same'},
                              snapshot={'h_sstart': 'sstart'},
                              decreases='strlen(text) - start', havoc_heap=['blocks'],
                              types={'mo': 'opaque', 'l_': 'int', 'tag': 'str', 'args': 'opaque', 'command': 'opaque', 'coname': 'opaque',
